@@ -112,33 +112,295 @@ func cpStringLits(node ast.Node) []string {
 	return res
 }
 
-// cpMemberTags returns the printed `Tag:` values of every ast.StructMember composite literal in fd.
+// cpMemberHelpers: the functions of f's package whose body is a single
+// `return &…StructMember{…}`: name -> (the literal, index of the parameter that is the literal's
+// `Tag:` value or -1, the printed Tag value when it is not a parameter).
+type cpMemberHelper struct {
+	lit    *ast.CompositeLit
+	tagArg int
+	tagStr string
+}
+
+func cpStructMemberLit(e ast.Expr) *ast.CompositeLit {
+	if u, ok := e.(*ast.UnaryExpr); ok && u.Op == token.AND {
+		e = u.X
+	}
+	cl, ok := e.(*ast.CompositeLit)
+	if !ok {
+		return nil
+	}
+	switch t := cl.Type.(type) {
+	case *ast.SelectorExpr:
+		if t.Sel.Name == "StructMember" {
+			return cl
+		}
+	case *ast.Ident:
+		if t.Name == "StructMember" {
+			return cl
+		}
+	}
+	return nil
+}
+
+func cpLitTag(f *file, cl *ast.CompositeLit) (ast.Expr, string) {
+	for _, el := range cl.Elts {
+		if kv, ok := el.(*ast.KeyValueExpr); ok {
+			if k, ok := kv.Key.(*ast.Ident); ok && k.Name == "Tag" {
+				return kv.Value, exprStr(f.fset, kv.Value)
+			}
+		}
+	}
+	return nil, "<none>"
+}
+
+func cpMemberHelpers(f *file) map[string]cpMemberHelper {
+	res := map[string]cpMemberHelper{}
+	for name, decls := range f.funcsOfPkg() {
+		if len(decls) != 1 {
+			continue
+		}
+		fd := decls[0]
+		if fd.Body == nil || len(fd.Body.List) != 1 {
+			continue
+		}
+		rs, ok := fd.Body.List[0].(*ast.ReturnStmt)
+		if !ok || len(rs.Results) != 1 {
+			continue
+		}
+		cl := cpStructMemberLit(rs.Results[0])
+		if cl == nil {
+			continue
+		}
+		h := cpMemberHelper{lit: cl, tagArg: -1}
+		tagExpr, tagStr := cpLitTag(f, cl)
+		h.tagStr = tagStr
+		if id, ok := tagExpr.(*ast.Ident); ok && fd.Type.Params != nil {
+			i := 0
+			for _, fl := range fd.Type.Params.List {
+				for _, nm := range fl.Names {
+					if nm.Name == id.Name {
+						h.tagArg = i
+					}
+					i++
+				}
+			}
+		}
+		res[name] = h
+	}
+	return res
+}
+
+// cpMemberTags returns the printed tag of every ast.StructMember that fd makes up, in either
+// spelling: the `Tag:` value of a composite literal written in fd, or — one level — the tag
+// argument at the call site of a same-package helper whose whole body returns such a literal with
+// `Tag: <its parameter>` (the helper's own literal, which the fallback reading appends to fd, is
+// not counted a second time).
 func cpMemberTags(f *file, fd *ast.FuncDecl) map[string]int {
 	res := map[string]int{}
 	if fd == nil {
 		return res
 	}
+	helpers := cpMemberHelpers(f)
+	own := map[*ast.CompositeLit]bool{}
+	for _, h := range helpers {
+		own[h.lit] = true
+	}
 	ast.Inspect(fd, func(n ast.Node) bool {
-		cl, ok := n.(*ast.CompositeLit)
-		if !ok {
-			return true
-		}
-		sel, ok := cl.Type.(*ast.SelectorExpr)
-		if !ok || sel.Sel.Name != "StructMember" {
-			return true
-		}
-		tag := "<none>"
-		for _, el := range cl.Elts {
-			if kv, ok := el.(*ast.KeyValueExpr); ok {
-				if k, ok := kv.Key.(*ast.Ident); ok && k.Name == "Tag" {
-					tag = exprStr(f.fset, kv.Value)
-				}
+		switch x := n.(type) {
+		case *ast.CompositeLit:
+			if own[x] || cpStructMemberLit(x) == nil {
+				return true
+			}
+			_, tag := cpLitTag(f, x)
+			res[tag]++
+		case *ast.CallExpr:
+			id, ok := x.Fun.(*ast.Ident)
+			if !ok {
+				return true
+			}
+			h, ok := helpers[id.Name]
+			if !ok {
+				return true
+			}
+			switch {
+			case h.tagArg >= 0 && h.tagArg < len(x.Args):
+				res[exprStr(f.fset, x.Args[h.tagArg])]++
+			default:
+				res[h.tagStr]++
 			}
 		}
-		res[tag]++
 		return true
 	})
 	return res
+}
+
+// cpSmallInt reads an integer written as an int literal or as a string literal holding one.
+func cpSmallInt(e ast.Expr) (int64, bool) {
+	if v, ok := intLit(e); ok {
+		return v, true
+	}
+	if bl, ok := e.(*ast.BasicLit); ok && bl.Kind == token.STRING {
+		if s, err := strconv.Unquote(bl.Value); err == nil {
+			if v, err := strconv.ParseInt(strings.TrimSpace(s), 10, 64); err == nil {
+				return v, true
+			}
+		}
+	}
+	return 0, false
+}
+
+// cpInvokePacketTypes: the packet type argument of the emitted `obj.servant.TarsInvoke(tarsCtx, <t>, …`
+// in the one-way and in the normal proxy, in either spelling:
+//   - two emitting calls with the literal in the text, in the branches of `if isOneWay {…} else {…}`;
+//   - one emitting call `…TarsInvoke(tarsCtx, ", <local>, ", …` whose local is defined with one
+//     value and assigned the other under `if isOneWay` (or `if !isOneWay`, or in both branches).
+func cpInvokePacketTypes(f *file, fd *ast.FuncDecl) (oneway, normal int64, ok bool) {
+	re := regexp.MustCompile(`obj\.servant\.TarsInvoke\(tarsCtx, (\d+), `)
+	ast.Inspect(fd, func(n ast.Node) bool {
+		is, isIf := n.(*ast.IfStmt)
+		if !isIf || exprStr(f.fset, is.Cond) != "isOneWay" || is.Else == nil {
+			return true
+		}
+		var a, b []string
+		for _, s := range cpStringLits(is.Body) {
+			if m := re.FindStringSubmatch(s); m != nil {
+				a = append(a, m[1])
+			}
+		}
+		for _, s := range cpStringLits(is.Else) {
+			if m := re.FindStringSubmatch(s); m != nil {
+				b = append(b, m[1])
+			}
+		}
+		if len(a) == 1 && len(b) == 1 {
+			oneway, _ = strconv.ParseInt(a[0], 10, 64)
+			normal, _ = strconv.ParseInt(b[0], 10, 64)
+			ok = true
+		}
+		return true
+	})
+	if ok {
+		return
+	}
+	// one emitting call with a local
+	local := ""
+	ast.Inspect(fd, func(n ast.Node) bool {
+		c, isCall := n.(*ast.CallExpr)
+		if !isCall {
+			return true
+		}
+		for i := 0; i+1 < len(c.Args); i++ {
+			bl, isLit := c.Args[i].(*ast.BasicLit)
+			if !isLit || bl.Kind != token.STRING {
+				continue
+			}
+			s, err := strconv.Unquote(bl.Value)
+			if err != nil || !strings.HasSuffix(s, "obj.servant.TarsInvoke(tarsCtx, ") {
+				continue
+			}
+			if id, isId := c.Args[i+1].(*ast.Ident); isId {
+				if local != "" && local != id.Name {
+					local = "<several>"
+				} else {
+					local = id.Name
+				}
+			}
+		}
+		return true
+	})
+	if local == "" || local == "<several>" {
+		return 0, 0, false
+	}
+	var def *int64
+	var ow, nm *int64
+	assigned := func(body ast.Node) *int64 {
+		var res *int64
+		cnt := 0
+		if body == nil {
+			return nil
+		}
+		ast.Inspect(body, func(m ast.Node) bool {
+			as, isAs := m.(*ast.AssignStmt)
+			if isAs && len(as.Lhs) == 1 && len(as.Rhs) == 1 && exprStr(f.fset, as.Lhs[0]) == local {
+				cnt++
+				if v, vok := cpSmallInt(as.Rhs[0]); vok {
+					res = &v
+				} else {
+					cnt += 100
+				}
+			}
+			return true
+		})
+		if cnt != 1 {
+			return nil
+		}
+		return res
+	}
+	writes := 0
+	ast.Inspect(fd, func(n ast.Node) bool {
+		switch x := n.(type) {
+		case *ast.AssignStmt:
+			if len(x.Lhs) == 1 && len(x.Rhs) == 1 && exprStr(f.fset, x.Lhs[0]) == local {
+				writes++
+				if x.Tok == token.DEFINE {
+					if v, vok := cpSmallInt(x.Rhs[0]); vok {
+						def = &v
+					}
+				}
+			}
+		case *ast.IfStmt:
+			switch exprStr(f.fset, x.Cond) {
+			case "isOneWay":
+				if v := assigned(x.Body); v != nil {
+					ow = v
+				}
+				if x.Else != nil {
+					if v := assigned(x.Else); v != nil {
+						nm = v
+					}
+				}
+			case "!isOneWay":
+				if v := assigned(x.Body); v != nil {
+					nm = v
+				}
+				if x.Else != nil {
+					if v := assigned(x.Else); v != nil {
+						ow = v
+					}
+				}
+			}
+		}
+		return true
+	})
+	if ow == nil {
+		ow = def
+	}
+	if nm == nil {
+		nm = def
+	}
+	// every write to the local is the definition or one of the assignments read above
+	n := 0
+	if def != nil {
+		n++
+	}
+	ast.Inspect(fd, func(m ast.Node) bool {
+		if is, isIf := m.(*ast.IfStmt); isIf {
+			c := exprStr(f.fset, is.Cond)
+			if c == "isOneWay" || c == "!isOneWay" {
+				if assigned(is.Body) != nil {
+					n++
+				}
+				if is.Else != nil && assigned(is.Else) != nil {
+					n++
+				}
+			}
+		}
+		return true
+	})
+	if ow == nil || nm == nil || writes != n {
+		return 0, 0, false
+	}
+	return *ow, *nm, true
 }
 
 // cpHeaderLits: the integer literal of `make([]T, <lit>)` calls and of `<x>[<lit>:]` slices in fd.
@@ -437,34 +699,10 @@ func init() {
 			default:
 				anchorLost("%s: genIFProxyFun: the copy-back block is in neither shape the model knows", grel)
 			}
-			re := regexp.MustCompile(`obj\.servant\.TarsInvoke\(tarsCtx, (\d+), `)
-			found := false
-			ast.Inspect(fd, func(n ast.Node) bool {
-				is, ok := n.(*ast.IfStmt)
-				if !ok || exprStr(gf.fset, is.Cond) != "isOneWay" || is.Else == nil {
-					return true
-				}
-				var a, b []string
-				for _, s := range cpStringLits(is.Body) {
-					if m := re.FindStringSubmatch(s); m != nil {
-						a = append(a, m[1])
-					}
-				}
-				for _, s := range cpStringLits(is.Else) {
-					if m := re.FindStringSubmatch(s); m != nil {
-						b = append(b, m[1])
-					}
-				}
-				if len(a) == 1 && len(b) == 1 {
-					x, _ := strconv.ParseInt(a[0], 10, 64)
-					y, _ := strconv.ParseInt(b[0], 10, 64)
-					add("cpProxyOnewayType", x, true)
-					add("cpProxyNormalType", y, true)
-					found = true
-				}
-				return true
-			})
-			if !found {
+			if x, y, ok := cpInvokePacketTypes(gf, fd); ok {
+				add("cpProxyOnewayType", x, true)
+				add("cpProxyNormalType", y, true)
+			} else {
 				anchorLost("%s: genIFProxyFun: the two emitted TarsInvoke calls (one-way / normal) not found", grel)
 			}
 		}
